@@ -268,6 +268,16 @@ def norm_segs(segs):
             if s[1] == FALSE: out.extend(b); continue
             if a == b: out.extend(a); continue
             if s[1][0] == 'bnot': s = ('cond', s[1][1], tuple(b), tuple(a)); a, b = list(s[2]), list(s[3])
+            # inside a branch its own condition is decided: `if c { if c {A} else {B} }` is `if c {A}`
+            def resolve(ss, c, val):
+                out_ = []
+                for x in ss:
+                    if x[0] == 'cond' and x[1] == c: out_.extend(resolve(list(x[2] if val else x[3]), c, val))
+                    elif x[0] == 'cond' and x[1] == ('bnot', c): out_.extend(resolve(list(x[3] if val else x[2]), c, val))
+                    else: out_.append(x)
+                return out_
+            a = resolve(a, s[1], True); b = resolve(b, s[1], False)
+            if a == b: out.extend(a); continue
             # `if n > 0 { n repetitions }` is just n repetitions
             if not b and len(a) == 1 and a[0][0] == 'rep' and s[1] == cmp('lt', ZERO, a[0][1]): out.extend(a); continue
             out.append(('cond', s[1], tuple(a), tuple(b)))
@@ -295,6 +305,10 @@ class Frame:
         self.d = d; self.vars = {}; self.upvars = {}; self.tsub = {}
 
 class Diverge(Exception): pass
+
+class ReturnEx(Exception):
+    """an early `return` met on a straight-line path (under a symbolic branch it is turned into an undecided value)"""
+    def __init__(self, value): Exception.__init__(self); self.value = value
 
 def fcopy(x, memo=None):
     """structure-preserving copy of interpreter values: containers are copied (aliasing kept through
@@ -572,7 +586,16 @@ class Interp:
     def seq_get(self, s, idx):
         # newest store first
         for (i, v) in reversed(s.stores):
-            if isinstance(i, tuple) and i[0] == 'range': return self.top('read of range-stored sequence')
+            if isinstance(i, tuple) and i[0] == 'range':
+                # an interval write [lo, hi): decided when the index provably lies outside it, or inside at a known place
+                lo_, hi_ = i[1], i[2]
+                if is_term(lo_) and is_term(hi_):
+                    if cmp('lt', idx, lo_) == TRUE or cmp('le', hi_, idx) == TRUE: continue
+                    if lo_[0] == 'c' and idx[0] == 'c' and cmp('le', lo_, idx) == TRUE and cmp('lt', idx, hi_) == TRUE:
+                        tmp = SeqV(s.elem, list(v)); r_ = self.base_get(tmp, C(idx[1] - lo_[1]))
+                        if not isinstance(r_, Top): return r_
+                return self.top('read of range-stored sequence')
+            if isinstance(i, tuple) and i[0] == 'within': return self.top('read of a sequence after an in-place move')
             c = cmp('eq', i, idx)
             if c == TRUE: return v
             if c == FALSE: continue
@@ -587,7 +610,13 @@ class Interp:
             pos = 0
             for sg in s.segs:
                 l = seglen(sg)
-                if l[0] != 'c': break
+                if l[0] != 'c':
+                    # a piece of symbolic length: the index is inside it when the length provably exceeds the remaining offset
+                    if sg[0] in ('raw', 'sym') and rng(l)[0] > idx[1] - pos:
+                        if sg[0] == 'raw' or s.is_bytes() or int_bits(s.elem):
+                            sym.SEL_RANGE.setdefault(sg[1], (0, 255 if (sg[0] == 'raw' or s.is_bytes()) else (1 << (int_bits(s.elem) or 8)) - 1))
+                            return ('sel', sg[1], C(idx[1] - pos))
+                    break
                 if pos <= idx[1] < pos + l[1]:
                     if sg[0] == 'elem': return sg[1]
                     if sg[0] == 'int':
@@ -680,6 +709,21 @@ class Interp:
                     d = join([(c, self.discr_of(v)) for c, v in vals])
                     nm = ('a', self.fresh_name('enumjoin'))
                     ev = EnumV(first.path, None, sym=nm, ty=first.ty); ev.discr_term = d
+                    return ev
+                if first.path == 'core::option::Option' and all(v.variant in ('Some', 'None') for v in vs):
+                    # Some on some paths, None on others: an Option whose presence condition is the disjunction of the Some-paths
+                    cond = FALSE; rest = TRUE; pay = []
+                    for c, v in vals:
+                        here = b_and(rest, c)
+                        if v.variant == 'Some': cond = b_or(cond, here); pay.append((c, v.fields['0']))
+                        rest = b_and(rest, bnot(c))
+                    ev = EnumV(first.path, None, sym=('a', self.fresh_name('optjoin')), ty=first.ty)
+                    ev.some_cond = cond
+                    if pay:
+                        pay[-1] = (TRUE, pay[-1][1])
+                        pv = join(pay)
+                        if isinstance(pv, Top): return pv
+                        ev.payload_cache[('Some', '0')] = pv
                     return ev
                 return self.top('join of different enum variants of ' + first.path)
             if all(isinstance(v, TupleV) for v in vs) and all(len(v.items) == len(first.items) for v in vs):
@@ -774,6 +818,11 @@ class Interp:
                 v = th()
             except Diverge:
                 S.dead = True; v = UNIT
+            except ReturnEx:
+                # the function returns on this path but goes on on another: the two continuations cannot be joined here
+                self.st = A; sym.CTX = A.ranges
+                raise_top = self.top('early return under a condition that is not decided')
+                return raise_top
             results.append((c, S, v))
             neg.append(c)
         self.st = A
@@ -983,8 +1032,47 @@ class Interp:
             return RefV(Cell(SeqV('u8', [('int', C(b), 1) for b in e['bytes']])))
         return self.top('literal', e)
 
+    def _tree_value(self, tree, ty):
+        """a structured constant (nested lists of integers) as an interpreter value of type `ty`"""
+        ty = norm_ty(ty)
+        if isinstance(tree, bool): return C(1 if tree else 0)
+        if isinstance(tree, int): return C(tree)
+        if not isinstance(tree, list): return None
+        m = re.match(r'^\[(.*); (\d+)\]$', ty)
+        if m:
+            el = m.group(1)
+            if el == 'u8' and all(isinstance(x, int) for x in tree): return SeqV('u8', [('int', C(x), 1) for x in tree])
+            vals = [self._tree_value(x, el) for x in tree]
+            if any(v is None for v in vals): return None
+            return SeqV(el, [('elem', v) for v in vals])
+        if ty.startswith('(') and ty.endswith(')'):
+            parts = split_generics('X<%s>' % ty[1:-1])[1]
+            if len(parts) != len(tree): return None
+            vals = [self._tree_value(x, pt) for x, pt in zip(tree, parts)]
+            if any(v is None for v in vals): return None
+            return TupleV(vals)
+        return None
+
     def e_Const(self, e):
         v = e.get('value')
+        if v is None and e.get('trait') and e.get('generics'):
+            # an associated const of a crate-local trait named through a type parameter (`Self::LEN` in a provided method):
+            # the implementing type is known from the inlining context
+            sty = norm_ty(self.resolve_ty(e['generics'][0]))
+            base_ = sty.split('<')[0]
+            cands = []
+            for key, c in self.f.consts.items():
+                m_ = re.match(r'^<(.+) as %s(?:<.*>)?>::%s$' % (re.escape(e['trait']), re.escape(e.get('name') or '')), key)
+                if m_ and norm_ty(m_.group(1)).split('<')[0] == base_: cands.append(c)
+            if not cands and self.f.consts.get('%s::%s' % (e['trait'], e.get('name'))) is not None:
+                cands = [self.f.consts['%s::%s' % (e['trait'], e.get('name'))]]      # the trait's default value
+            if len(cands) == 1 and cands[0].get('value') is not None:
+                c = cands[0]
+                return self.e_Const(dict(e, value=c['value'], trait=None, ty=self.resolve_ty(e.get('ty', c.get('ty', '')))))
+            return self.top('associated constant %s of %s for %s' % (e.get('name'), e['trait'], sty), e)
+        if isinstance(v, dict) and 'tree' in v and 'int' not in v:
+            tv = self._tree_value(v['tree'], e['ty'])
+            if tv is not None and not (isinstance(tv, SeqV) and tv.is_bytes() and 'bytes' in v): return tv
         if isinstance(v, dict):
             if 'int' in v: return C(v['int'])
             if 'bool' in v: return C(1 if v['bool'] else 0)
@@ -1203,7 +1291,9 @@ class Interp:
         return UNIT
 
     def e_Return(self, e):
-        return self.top('early return', e)
+        # `return v` on a path whose conditions were all decided: the enclosing function ends here with v
+        v = self.eval(e['value']) if isinstance(e.get('value'), dict) else UNIT
+        raise ReturnEx(v)
 
     def e_If(self, e):
         ce = e['cond']
@@ -1317,6 +1407,43 @@ class Interp:
         """run fn(element) for every element of the iterable, summarising symbolic repetition"""
         itv = it
         while isinstance(itv, RefV): itv = itv.place.get()
+        if isinstance(itv, IterV) and itv.kind == 'zip':
+            # lockstep over two sequences: one side must be fully known (a constant table), the other at least as long
+            def known(iv):
+                sq = iv.seq
+                while isinstance(sq, RefV): sq = sq.place.get()
+                if not isinstance(sq, SeqV) or sq.stores: return None
+                out = []
+                for sg in (norm_segs(sq.segs) if sq.is_bytes() else sq.segs):
+                    if sg[0] == 'elem': out.append(sg[1])
+                    elif sg[0] == 'int' and sg[2] == 1: out.append(sg[1])
+                    else: return None
+                return out if len(out) <= 64 else None
+            def at(iv, k):
+                sq = iv.seq
+                while isinstance(sq, RefV): sq = sq.place.get()
+                if not isinstance(sq, SeqV): return None
+                lo_, _ = rng(seqlen(sq.segs))
+                if lo_ < k + 1: return None
+                return self.seq_get(sq, C(k))
+            pa, pb = itv.parts
+            ka, kb = known(pa), known(pb)
+            n_ = None
+            if ka is not None and kb is not None: n_ = min(len(ka), len(kb))
+            elif ka is not None: n_ = len(ka)
+            elif kb is not None: n_ = len(kb)
+            if n_ is None: self.top('zip of two sequences of unknown length', e); return
+            wa = (lambda v: RefV(Cell(v))) if pa.by_ref else (lambda v: v)
+            wb = (lambda v: RefV(Cell(v))) if pb.by_ref else (lambda v: v)
+            for k_ in range(n_):
+                va = ka[k_] if ka is not None else at(pa, k_)
+                vb = kb[k_] if kb is not None else at(pb, k_)
+                if va is None or vb is None or isinstance(va, Top) or isinstance(vb, Top):
+                    self.top('zip: the other sequence is not known to be long enough', e); return
+                self._iter_idx = C(k_)
+                fn(TupleV([wa(va), wb(vb)]))
+            self._iter_idx = None
+            return
         if isinstance(itv, IterV) and itv.kind in ('option', 'optflat') and not itv.maps:
             # Option::iter(): zero or one element;  .flatten(): the elements of the payload when there is one
             import builtins_model
@@ -1482,7 +1609,10 @@ class Interp:
             sym.ATOM_RANGE[nm] = (0, 255) if (lo >= 0 and hi <= 255) else (0, sym.BIG)
             olds.append((st, old, a))
             self._set(st, a)
-        run()
+        try:
+            run()
+        except ReturnEx:
+            self.top('early return inside a loop over a sequence of unknown length', e)
         # integers: unchanged, or accumulator
         for st, old, a in olds:
             new = self._get(st)
@@ -1623,6 +1753,12 @@ class Interp:
         elif b['kind'] == 'Closure':
             fr.tsub = dict(self.frame().tsub)
         if tsub: fr.tsub = dict(tsub)
+        if 'Self' in (b.get('type_params') or []) and fr.tsub.get('Self') in (None, 'Self') and args:
+            # a provided trait method inlined for a receiver whose type is known here
+            rv = args[0]
+            while isinstance(rv, RefV): rv = rv.place.get()
+            rty = rv.ty if isinstance(rv, (StructV, EnumV)) else self.value_type(rv)
+            if rty: fr.tsub['Self'] = norm_ty(rty)
         params = b['params']
         if b['kind'] == 'Closure':
             params = params[1:]
@@ -1639,7 +1775,10 @@ class Interp:
                 return self.top('arity mismatch calling ' + name, e)
             for p, a in zip(params, args):
                 if 'pat' in p: self.bind(p['pat'], a)
-            r = self.eval(b['body'])
+            try:
+                r = self.eval(b['body'])
+            except ReturnEx as rx:
+                r = rx.value
         finally:
             self.st.frames.pop()
             self.depth -= 1
